@@ -15,6 +15,11 @@ Workloads: the complete (dim_in, dim_out, #Kraus, field) configuration grid for 
 isometries / unitaries / replacement / measure-prepare / partial-trace / redundant-Kraus channels, rank-deficient Choi
 operators, built-in noise channels on a rate grid incl. the end points, torch backend, the ChannelCapacity1InfModel
 optimisation and the repository's own channel tests running under the monitors.
+Lesson 3 additions: conditioning-derived tolerances (trace distance relative to the distance, fidelity / relative entropy scaled by the
+reference lambda_min of the input), shard `regimes` (near pairs, rounding-noise dense matrices, nearly rank-deficient Choi operators,
+zero_eps / with_rho0 options, hf_channel_* with Kraus rank above dim_in^2, batches with one degenerate item), torch autograd modes
+(same value with / without requires_grad, under no_grad, Pade route of the entropies, lazily conjugated tensors), contracts on
+get_purity, gellmann_basis_to_matrix, ChannelCapacity1InfModel.forward (+ lifecycle histories), consumers get_Werner_ree / get_Isotropic_ree.
 """
 import importlib.util
 import math
@@ -29,7 +34,10 @@ RULE = ('a case is one channel (Kraus operators from numqi.random or from the re
         'family) pushed through every conversion, applied in all representations to 6 input states (full-rank, numqi '
         'rand_density_matrix, low-rank, pure, maximally mixed, basis/real) and used for the data-processing inequalities on up to 8 '
         'state pairs (generic, low-rank vs full, full vs low-rank, kets, identical, orthogonal kets, nearby, pure vs full); other cases: one (noise channel, rate) '
-        'pair, one (noise channel, rate, equal-valued rate) edit-then-recall history, one state pair / batch for the functionals, one torch channel, one optimiser run, one repository test. '
+        'pair, one (noise channel, rate, equal-valued rate) edit-then-recall history, one state pair / batch for the functionals, one torch channel (all conversions / functionals '
+        'in the autograd modes plain / requires-grad / no_grad / lazy-conj), one optimiser run, one capacity-model lifecycle (two instances, deepcopy, load_state_dict, channel replaced), '
+        'one repository test; shard regimes: one near pair (eps 1e-3..1e-12 around I/d, a full-rank or a skewed state), one rounding-noise state pair / channel (1e-13..1e-16, no symmetry), '
+        'one nearly rank-deficient channel (weight 1e-3..1e-9), one callable channel with Kraus rank above dim_in^2, one batch with one degenerate item. '
         'A channel case is non-trivial when dim_in*dim_out > 1 (the 1->1 channel is the scalar identity), a functional '
         'case when d >= 2; distinct by digest of (family, Kraus array) resp. (kind, arrays)')
 EXHAUSTIVE = {'quick': True, 'thorough': True}
@@ -47,8 +55,13 @@ ASSUMPTIONS = [
     'order symmetric, antisymmetric, diagonal of the generalised Gell-Mann matrices with Tr G_m G_n = 2 delta_mn',
     'tolerances: 1e-10 (relative to max(1, |ref|)) for linear-algebra identities, exact equality for pure index permutations, '
     '1e-9 + N*zero_eps for Kraus operators recovered by eigen-decomposition, 1e-6 for fidelity when any state has an '
-    'eigenvalue < 1e-6 (else 1e-9), 1e-8 for relative entropy, judged only when the second argument (and its image for '
-    'the inequality) has lambda_min >= 1e-6',
+    'eigenvalue < 1e-6, else min(1e-9, 1e-12 + 1e2*eps/sqrt(lambda_min)); relative entropy min(1e-8, 1e-12 + 1e2*eps/lambda_min(sigma)), judged only '
+    'when the second argument (and its image for the inequality) has lambda_min >= 1e-6; lambda_min is the reference spectrum of the INPUT; '
+    'arguments that are hermitian only up to rounding noise keep the flat 1e-9 / 1e-8; trace distance is judged relative to the distance '
+    '(1e-9*T + 1e-17 + d*hermitian defect of the difference, at most 1e-10); von Neumann entropy 1e-11 on the double-precision eigen route '
+    '(measured on the unchanged tree: 3.2e-14 = d*eps*|log eps| of the machine-eps clip), 1e-6 on the Pade route, 1e-4 single precision',
+    'ChannelCapacity1InfModel.forward is compared with the Holevo quantity of the ensemble its own manifolds produce (read under torch.no_grad() '
+    'inside the contract) for the channel handed to set_channel_kraus_op of that instance; the manifolds themselves are judged by C01/C02',
     'rand_kraus_op(num_term, dim_in, dim_out) is only driven with num_term*dim_out >= dim_in; noise rates only in [0,1]',
     'get_Renyi_entropy: finiteness and the range [0, log d] are judged for every valid state; the value is compared with the reference '
     'only where the map is Lipschitz (alpha > 1, or lambda_min >= 1e-6): for alpha < 1 a rounding eigenvalue 1e-17 legitimately moves the result',
@@ -71,9 +84,13 @@ DECIDING = [P_CH + n for n in (
     'random.rand_kraus_op', 'random.rand_choi_op', 'gellmann.matrix_to_gellmann_basis', 'gellmann.dm_to_gellmann_basis',
     'equiv/all-representations', 'dpi/trace_distance', 'dpi/fidelity', 'dpi/relative_entropy',
     'fidelity/symmetric', 'fidelity/range', 'entropy/range', 'noise/cptp', 'noise/history', 'history/result-aliasing',
-    'history/edit-then-recall']
+    'history/edit-then-recall',
+    # lesson 3: numerical / shape regimes, torch evaluation modes, less prominent entry points, lifecycle of the consumer
+    'regime/near-pair', 'entropy-batch/one-degenerate-item', 'torch-modes/same-value', 'utils.get_purity',
+    'gellmann.gellmann_basis_to_matrix', 'channel.ChannelCapacity1InfModel.forward', 'capacity-model/lifecycle']
 
 TOL = 1e-10
+EPS = float(np.finfo(np.float64).eps)
 DIMS = (1, 2, 3, 4, 5)
 
 
@@ -94,7 +111,7 @@ def shards(tier, seed):
                {'name': 'random-0', 'n': 60}, {'name': 'random-1', 'n': 60},
                {'name': 'special', 'n': 60}, {'name': 'choi-lowrank', 'n': 40},
                {'name': 'noise'}, {'name': 'functionals', 'n': 300}, {'name': 'torch', 'n': 40},
-               {'name': 'realistic'}, {'name': 'repo-tests'}]
+               {'name': 'realistic'}, {'name': 'repo-tests'}, {'name': 'regimes', 'n': 40}]
     else:
         ret = [{'name': f'grid-{i}', 'part': i, 'nparts': 4} for i in range(4)]
         ret += [{'name': f'random-{i}', 'n': 600} for i in range(8)]
@@ -103,6 +120,7 @@ def shards(tier, seed):
         ret += [{'name': f'functionals-{i}', 'n': 2500} for i in range(3)]
         ret += [{'name': f'torch-{i}', 'n': 300} for i in range(2)]
         ret += [{'name': 'noise'}, {'name': 'realistic'}, {'name': 'repo-tests'}]
+        ret += [{'name': f'regimes-{i}', 'n': 300} for i in range(2)]
     return ret
 
 
@@ -149,11 +167,14 @@ class Ghost:
         self.kop = None
         self.din = None
         self.label = None
+        self.tp_defect = 0.0
+        self.model_kop = {}  # id(ChannelCapacity1InfModel instance) -> (instance, copy of the Kraus operators it was given)
 
     def set(self, kop, label):
         kop = np.asarray(kop)
         if rc.kraus_tp_defect(kop) <= 1e-9:  # the inequalities are claimed for CPTP maps only
             self.kop, self.din, self.label = kop, kop.shape[2], label
+            self.tp_defect = float(rc.kraus_tp_defect(kop))  # (a producer's ill-conditioned draw may miss TP by up to 1e-10: enters the DPI tolerances)
         else:
             self.clear()
 
@@ -510,12 +531,44 @@ def install(ctx, numqi, gh):
             return
         a = _np(c.args[0])
         with_rho0 = c.arg(1, 'with_rho0', False)
-        if not (_square(a) and 2 <= a.shape[0] <= 8) or with_rho0:
+        if with_rho0:
+            # less prominent option: the identity coefficient Tr(rho)/sqrt(2d) is kept as last entry
+            if _square(a) and 1 <= a.shape[0] <= 8:
+                ref = rc.gellmann_coefficients(a)
+                cmp(c.result, ref.real, TOL * _scale(ref), 'gellmann/dm_to_basis(with_rho0)/value',
+                    'dm_to_gellmann_basis(with_rho0=True) differs from (Tr(G_m rho)/2 ..., Tr(rho)/sqrt(2d))', {'rho': a})
+            return
+        if not (_square(a) and 2 <= a.shape[0] <= 8):
             return
         ref = rc.bloch_vector(a)
         cmp(c.result, ref.real, TOL * _scale(ref), 'gellmann/dm_to_basis/value', 'dm_to_gellmann_basis differs from r_m = Tr(G_m rho)/2', {'rho': a})
 
     ctx.attach(GM, 'dm_to_gellmann_basis', post=post_dm_to_gm, point='gellmann.dm_to_gellmann_basis')
+
+    def post_gm_to_matrix(c):
+        if c.exc is not None:
+            return
+        v = _np(c.args[0])
+        if not (_numeric(v) and v.ndim >= 1 and v.size and v.shape[-1] >= 1):
+            return
+        d = rc.isqrt_exact(v.shape[-1])
+        if d is None or d > 8:
+            return
+        res = _np(c.result)
+        ok = _numeric(res) and res.shape == v.shape[:-1] + (d, d)
+        ctx.check(ok, 'gellmann/basis_to_matrix/shape', 'gellmann_basis_to_matrix must return (..., d, d)', {'in': v.shape, 'out': np.shape(res)})
+        if not ok:
+            return
+        vecs, mats = v.reshape(-1, d * d), res.reshape(-1, d, d)
+        basis = rc.gellmann_basis(d) + [np.sqrt(2 / d) * np.eye(d)]
+        tol = 1e-4 if v.dtype in (np.float32, np.complex64) else TOL
+        for t in (range(len(vecs)) if len(vecs) <= 16 else [int(x) for x in np.linspace(0, len(vecs) - 1, 16)]):
+            ref = sum(cf * g for cf, g in zip(vecs[t].astype(np.complex128), basis))
+            if not cmp(mats[t], ref, tol * _scale(ref), 'gellmann/basis_to_matrix/value',
+                       'gellmann_basis_to_matrix differs from sum_m v_m G_m (own Gell-Mann basis, identity element sqrt(2/d) I last)', {'v': vecs[t]}):
+                break
+
+    ctx.attach(GM, 'gellmann_basis_to_matrix', post=post_gm_to_matrix, point='gellmann.gellmann_basis_to_matrix')
 
     def post_gm_to_dm(c):
         if c.exc is not None:
@@ -745,14 +798,19 @@ def install(ctx, numqi, gh):
         w = {'rho0': _np(x0), 'rho1': _np(x1), 'got': repr(c.result)[:80]}
         if not ctx.check(f is not None and np.isfinite(f), 'fidelity/not-a-real-scalar', 'get_fidelity must return a finite real scalar', w):
             return
-        lowrank = min(rq.spectrum(d0).min(), rq.spectrum(d1).min()) < 1e-6
-        tol = 1e-6 if lowrank else 1e-9
+        lam_min = float(min(rq.spectrum(d0).min(), rq.spectrum(d1).min()))
+        lowrank = lam_min < 1e-6
+        # condition of the sqrt-type formula at THIS input (DESIGN section 3): 1/sqrt(lambda_min) of the arguments, computed by the
+        # reference; arguments that are hermitian only up to rounding noise keep the flat tolerance (eigh reads one triangle)
+        exact_herm = max(rc.hermitian_defect(d0), rc.hermitian_defect(d1)) <= 1e-16
+        tol = 1e-6 if lowrank else (min(1e-9, 1e-12 + 1e2 * EPS / math.sqrt(lam_min)) if exact_herm else 1e-9)
         ref = rq.fidelity(d0, d1)
         worst_key = 'fidelity/value(low-rank)' if lowrank else 'fidelity/value(full-rank)'
         worst[worst_key] = max(worst.get(worst_key, 0.0), abs(f - ref))
         ctx.check(abs(f - ref) <= tol, 'fidelity/value', 'get_fidelity differs from ||sqrt(rho) sqrt(sigma)||_1^2 (reference, SVD)',
                   {**w, 'got': f, 'expected': ref, 'tol': tol})
-        ctx.check(-tol <= f <= 1 + tol, 'fidelity/out-of-[0,1]', 'fidelity outside [0,1]', {**w, 'got': f}, point='fidelity/range')
+        tol_r = max(tol, 1e-9)  # (arguments are states up to 1e-9 in trace)
+        ctx.check(-tol_r <= f <= 1 + tol_r, 'fidelity/out-of-[0,1]', 'fidelity outside [0,1]', {**w, 'got': f}, point='fidelity/range')
         f_sw = _scalar(c.func(x1, x0))
         ctx.check(f_sw is not None and abs(f_sw - f) <= tol, 'fidelity/not-symmetric', 'F(rho,sigma) != F(sigma,rho)',
                   {**w, 'got': f, 'swapped': f_sw}, point='fidelity/symmetric')
@@ -761,7 +819,7 @@ def install(ctx, numqi, gh):
         im = _images(d0, d1)
         if im is not None:
             lr_img = min(rq.spectrum(im[0]).min(), rq.spectrum(im[1]).min()) < 1e-6
-            tol2 = 1e-6 if (lowrank or lr_img) else 1e-9
+            tol2 = (1e-6 if (lowrank or lr_img) else 1e-9) + 10 * gh.tp_defect
             f_img = _scalar(c.func(_like(im[0], x0), _like(im[1], x1)))
             if f_img is not None:
                 margin('F(E rho,E sigma) - F(rho,sigma)', f_img - f)
@@ -785,8 +843,11 @@ def install(ctx, numqi, gh):
             return
         ref = rq.trace_distance(a0, a1)
         worst['trace_distance/value'] = max(worst.get('trace_distance/value', 0.0), abs(t - ref))
-        ctx.check(abs(t - ref) <= TOL * _scale(ref), 'trace_distance/value', 'get_trace_distance differs from ||rho-sigma||_1/2 (reference, SVD)',
-                  {**w, 'got': t, 'expected': ref})
+        # the difference rho - sigma is formed identically by every implementation: the eigen-solver error is relative to ||rho-sigma||
+        # (measured on the unchanged tree: <= 1e-15 * ||rho-sigma||_1 for distances 1e-4 .. 1e-14), so nearby states are judged relatively
+        tol_t = min(TOL * _scale(ref), 1e-9 * ref + 1e-17 + a0.shape[0] * rc.hermitian_defect(a0 - a1))  # (eigvalsh reads one triangle)
+        ctx.check(abs(t - ref) <= tol_t, 'trace_distance/value', 'get_trace_distance differs from ||rho-sigma||_1/2 (reference, SVD)',
+                  {**w, 'got': t, 'expected': ref, 'tol': tol_t})
         d0, d1 = _state_arg(a0), _state_arg(a1)
         if d0 is None or d1 is None:
             return
@@ -797,7 +858,7 @@ def install(ctx, numqi, gh):
             if t_img is not None:
                 margin('T(rho,sigma) - T(E rho,E sigma)', t - t_img)
                 count('dpi/trace_distance')
-            ctx.check(t_img is not None and t_img <= t + 1e-9, 'dpi/trace-distance-increased',
+            ctx.check(t_img is not None and t_img <= t + 1e-9 * t + 1e-13 + 10 * gh.tp_defect, 'dpi/trace-distance-increased',
                       'trace distance increased under a CPTP channel (images by apply_kraus_op)',
                       {**w, 'channel': gh.label, 'kraus': gh.kop, 'T_in': t, 'T_out': t_img}, point='dpi/trace_distance')
 
@@ -818,19 +879,24 @@ def install(ctx, numqi, gh):
         w = {'rho': d0, 'sigma': d1, 'got': repr(c.result)[:80]}
         if not ctx.check(s is not None and np.isfinite(s), 'relative_entropy/not-a-real-scalar', 'get_relative_entropy must return a finite real scalar', w):
             return
+        # condition of log(sigma) at THIS input: 1/lambda_min(sigma) (reference spectrum); flat 1e-8 beyond, and for arguments that are
+        # hermitian only up to rounding noise
+        exact_herm = max(rc.hermitian_defect(d0), rc.hermitian_defect(d1)) <= 1e-16
+        tol_s = min(1e-8, 1e-12 + 1e2 * EPS / float(rq.spectrum(d1).min())) if exact_herm else 1e-8
         given = c.arg(2, 'tr_rho_log_rho')
         if given is None:
             ref = rq.relative_entropy(d0, d1)
             worst['relative_entropy/value'] = max(worst.get('relative_entropy/value', 0.0), abs(s - ref))
-            ctx.check(abs(s - ref) <= 1e-8 * _scale(ref), 'relative_entropy/value',
-                      'get_relative_entropy differs from Tr rho(log rho - log sigma) (reference, 0 log 0 = 0)', {**w, 'got': s, 'expected': ref})
-            ctx.check(s >= -1e-8, 'relative_entropy/negative', 'relative entropy of two states is negative (Klein)', {**w, 'got': s})
+            ctx.check(abs(s - ref) <= tol_s * _scale(ref), 'relative_entropy/value',
+                      'get_relative_entropy differs from Tr rho(log rho - log sigma) (reference, 0 log 0 = 0)', {**w, 'got': s, 'expected': ref, 'tol': tol_s})
+            tr_def = abs(np.trace(d0).real - 1) + abs(np.trace(d1).real - 1)  # Klein's inequality needs equal traces: arguments are states up to 1e-9
+            ctx.check(s >= -tol_s - 10 * tr_def, 'relative_entropy/negative', 'relative entropy of two states is negative (Klein)', {**w, 'got': s, 'tol': tol_s})
         else:
             g = _scalar(given)
             if g is None:
                 return
             ref = g + rq.entropy(d0) + rq.relative_entropy(d0, d1)
-            ctx.check(abs(s - ref) <= 1e-8 * _scale(ref), 'relative_entropy/value-with-given-term',
+            ctx.check(abs(s - ref) <= tol_s * _scale(ref, g), 'relative_entropy/value-with-given-term',
                       'get_relative_entropy(tr_rho_log_rho=t) differs from t - Tr rho log sigma', {**w, 'got': s, 'expected': ref, 'given': g})
             return
         if _is_torch(x0):
@@ -844,7 +910,8 @@ def install(ctx, numqi, gh):
             if s_img is not None:
                 margin('S(rho||sigma) - S(E rho||E sigma)', s - s_img)
                 count('dpi/relative_entropy')
-            ctx.check(s_img is not None and s_img <= s + 1e-8, 'dpi/relative-entropy-increased',
+            tol_img = tol_s + min(1e-8, 1e-12 + 1e2 * EPS / float(rq.spectrum(im[1]).min())) + 1e2 * gh.tp_defect
+            ctx.check(s_img is not None and s_img <= s + tol_img * _scale(s), 'dpi/relative-entropy-increased',
                       'relative entropy increased under a CPTP channel (images by apply_kraus_op)',
                       {**w, 'channel': gh.label, 'kraus': gh.kop, 'S_in': s, 'S_out': s_img}, point='dpi/relative_entropy')
 
@@ -868,7 +935,8 @@ def install(ctx, numqi, gh):
         mats = a.reshape(-1, d, d)
         vals = res.reshape(-1)
         pade = _is_torch(x) and bool(getattr(x, 'requires_grad', False)) and method != 'eigen'
-        tol = 1e-4 if single else (1e-6 if pade else 1e-9)
+        # eigen route in double precision: the only legitimate deviation from 0 log 0 = 0 is the machine-eps clip, d*eps*|log eps| = 4e-14
+        tol0 = 1e-4 if single else (1e-6 if pade else 1e-11)
         for t in range(min(len(mats), 32)):
             if not rc.is_state(mats[t], 1e-5 if single else 1e-9):
                 ctx.inconclusive('entropy/argument-not-a-state')
@@ -878,10 +946,12 @@ def install(ctx, numqi, gh):
             if not ctx.check(np.isfinite(v.real) and abs(v.imag) <= 1e-12, 'entropy/not-a-real-scalar', 'entropy must be a finite real number', w):
                 continue
             ref = rq.entropy(mats[t])
+            tol = tol0 if (tol0 > 1e-11 or rc.hermitian_defect(mats[t]) <= 1e-14) else 1e-9  # rounding-noise input: eigvalsh reads one triangle
             worst['entropy/value'] = max(worst.get('entropy/value', 0.0), abs(v.real - ref)) if not single else worst.get('entropy/value', 0.0)
             ctx.check(abs(v.real - ref) <= tol, 'entropy/value', 'get_von_neumann_entropy differs from -sum l log l (reference, 0 log 0 = 0)',
                       {**w, 'expected': ref, 'tol': tol})
-            ctx.check(-tol <= v.real <= math.log(d) + tol, 'entropy/out-of-[0,log d]', 'von Neumann entropy outside [0, log d]',
+            tol_r = max(tol, 1e-9)  # the argument is a state only up to 1e-9 in trace (image under a channel with a TP defect): -x log x at x = 1+delta
+            ctx.check(-tol_r <= v.real <= math.log(d) + tol_r, 'entropy/out-of-[0,log d]', 'von Neumann entropy outside [0, log d]',
                       {**w, 'log_d': math.log(d)}, point='entropy/range')
 
     ctx.attach(U, 'get_von_neumann_entropy', post=post_entropy, point='utils.get_von_neumann_entropy')
@@ -918,6 +988,71 @@ def install(ctx, numqi, gh):
             ctx.inconclusive('renyi_entropy/value-not-compared(alpha<1, rank-deficient)')
 
     ctx.attach(U, 'get_Renyi_entropy', post=post_renyi, point='utils.get_Renyi_entropy')
+
+    def post_purity(c):
+        # less prominent entropy-type functional of the anchored range: Tr rho^2 = exp(-H_2(rho)), in [1/d, 1]
+        if c.exc is not None:
+            return
+        x = c.arg(0, 'rho')
+        d0 = _state_arg(x)
+        if d0 is None or _np(x).ndim != 2:
+            return
+        v = _scalar(c.result)
+        lam = np.clip(rq.spectrum(d0), 0, None)
+        ref = float((lam**2).sum())
+        w = {'rho': d0, 'got': repr(c.result)[:80], 'expected': ref}
+        if not ctx.check(v is not None and np.isfinite(v), 'purity/not-a-real-scalar', 'get_purity must return a finite real scalar', w):
+            return
+        ctx.check(abs(v - ref) <= 1e-10, 'purity/value', 'get_purity differs from sum lambda_i^2 (reference spectrum)', w)
+        ctx.check(1 / d0.shape[0] - 1e-10 <= v <= 1 + 1e-10, 'purity/out-of-[1/d,1]', 'purity of a state outside [1/d, 1]', w, point='entropy/range')
+        h2 = _scalar(U.get_Renyi_entropy(x, 2))
+        ctx.check(h2 is not None and abs(math.exp(-h2) - v) <= 1e-9, 'purity/vs-renyi-2', 'exp(-get_Renyi_entropy(rho,2)) != get_purity(rho)',
+                  {**w, 'renyi2': h2})
+
+    ctx.attach(U, 'get_purity', post=post_purity, point='utils.get_purity')
+
+    # ------------------------------------------------------------ the library's consumer: ChannelCapacity1InfModel
+    Cap = numqi.channel.ChannelCapacity1InfModel
+
+    def post_cap_set(c):
+        if c.exc is None and len(c.args) >= 1:
+            kop = _np(c.arg(1, 'kop'))
+            if _numeric(kop) and kop.ndim == 3:
+                gh.model_kop[id(c.args[0])] = (c.args[0], np.array(kop, dtype=np.complex128, copy=True))
+
+    ctx.attach(Cap, 'set_channel_kraus_op', post=post_cap_set, point='channel.ChannelCapacity1InfModel.set_channel_kraus_op')
+
+    def post_cap_forward(c):
+        """forward() = -(H(E(rho)) - sum_i p_i H(E(psi_i))) for the ensemble (p, psi) the model's own manifolds produce from ITS
+        parameters and the channel handed to set_channel_kraus_op of THIS instance (ghost copy taken at that call)."""
+        if c.exc is not None or not c.args:
+            return
+        m = c.args[0]
+        ent = gh.model_kop.get(id(m))
+        if ent is None or ent[0] is not m:
+            return
+        kop = ent[1]
+        import torch
+        with torch.no_grad():
+            prob, psi = _np(m.manifold_prob()), _np(m.manifold_psi())
+        if not (_numeric(prob) and _numeric(psi) and prob.ndim == 1 and psi.ndim == 2 and psi.shape == (prob.shape[0], kop.shape[2])
+                and np.all(np.isfinite(prob)) and np.all(np.isfinite(psi))):
+            return
+        if abs(prob.sum() - 1) > 1e-9 or prob.min() < -1e-12 or np.abs(np.linalg.norm(psi, axis=1) - 1).max() > 1e-9:
+            ctx.inconclusive('capacity-model/ensemble-not-normalised(judged by C01/C02)')
+            return
+        v = _scalar(c.result)
+        rho = (psi.T * prob) @ psi.conj()
+        hol = rq.entropy(rc.apply_kraus(kop, rho)) - sum(float(p) * rq.entropy(rc.apply_kraus(kop, np.outer(x, x.conj()))) for p, x in zip(prob, psi))
+        w = {'kraus': kop, 'prob': prob, 'psi': psi, 'got': repr(c.result)[:80], 'expected': -hol,
+             'grad_mode': bool(torch.is_grad_enabled()), 'params_require_grad': [bool(q.requires_grad) for q in m.parameters()]}
+        if not ctx.check(v is not None and np.isfinite(v), 'capacity-model/forward-not-a-real-scalar', 'ChannelCapacity1InfModel.forward must return a finite real scalar', w):
+            return
+        worst['capacity-model/forward'] = max(worst.get('capacity-model/forward', 0.0), abs(v + hol))
+        ctx.check(abs(v + hol) <= 1e-9, 'capacity-model/forward-vs-holevo-of-own-ensemble',
+                  'ChannelCapacity1InfModel.forward differs from -(H(E(sum p_i psi_i)) - sum p_i H(E(psi_i))) of its own ensemble and its own channel (reference)', w)
+
+    ctx.attach(Cap, 'forward', post=post_cap_forward, point='channel.ChannelCapacity1InfModel.forward')
 
 
 # ------------------------------------------------------------------------------------------------ workloads
@@ -1189,6 +1324,281 @@ def _seed_unseeded_generators(ctx):
     np.random.default_rng = default_rng
 
 
+def _rand_herm_dir(rng, d, cplx):
+    """traceless hermitian direction of spectral norm 1"""
+    while True:
+        h = rng.normal(size=(d, d)) + (1j * rng.normal(size=(d, d)) if cplx else 0)
+        h = (h + h.conj().T) / 2
+        h = h - np.trace(h) / d * np.eye(d)
+        nrm = np.abs(np.linalg.eigvalsh(h)).max()
+        if nrm > 1e-3:
+            return h / nrm
+
+
+def _round_noise(rng, shape, amp):
+    """dense rounding noise that preserves no symmetry"""
+    return amp * (rng.normal(size=shape) + 1j * rng.normal(size=shape))
+
+
+HF_CONFIGS = [(1, 2, 2), (1, 3, 3), (2, 3, 6), (2, 5, 9), (3, 4, 11), (3, 2, 2), (2, 1, 2), (1, 1, 1), (2, 2, 4), (4, 5, 18)]
+
+
+def run_regimes(ctx, numqi, gh, n):
+    """numerical regimes (states / channels within 1e-3 .. 1e-12 of a special point, rounding-noise dense matrices, nearly
+    rank-deficient Choi operators), shape regimes (one degenerate item in a batch, Kraus rank above dim_in^2 through the callable
+    entry points) and the less prominent options (zero_eps, with_rho0, get_purity, gellmann_basis_to_matrix)."""
+    import torch
+    Ch, U, GM = numqi.channel, numqi.utils, numqi.gellmann
+    rng = ctx.rng
+    for i in range(n):
+        d = int(rng.integers(2, 6))
+        cplx = bool(rng.random() < 0.6)
+        # ---- (a) pairs of states within eps of each other / of the maximally mixed state
+        eps = float(10.0**(-rng.uniform(3, 12)))
+        base_kind = ('maximally-mixed', 'full-rank', 'skewed')[i % 3]
+        if base_kind == 'maximally-mixed':
+            base = np.eye(d, dtype=np.complex128) / d
+        elif base_kind == 'full-rank':
+            base = rc.rand_state(rng, d, None, cplx)
+        else:
+            spec = np.sort(rng.dirichlet(np.ones(d) * 0.5)) + 1e-3
+            base = rc.rand_state_spectrum(rng, d, spec / spec.sum(), cplx)
+        lam = float(rq.spectrum(base).min())
+        a = base + 0.5 * eps * lam * _rand_herm_dir(rng, d, cplx)
+        b = base if i % 2 else base + 0.5 * eps * lam * _rand_herm_dir(rng, d, cplx)
+        if not cplx and i % 4 < 2:
+            a, b = np.ascontiguousarray(a.real), np.ascontiguousarray(np.asarray(b).real)
+        dout = int(rng.integers(1, 6))
+        kop = rc.rand_kraus(rng, int(rng.integers(-(-d // dout), d * dout + 1)), d, dout, cplx)
+        gh.set(kop, {'family': 'regimes/ref', 'din': d, 'dout': dout, 'terms': int(kop.shape[0])})
+        ctx.set_case({'regime': 'near-pair', 'base': base_kind, 'd': d, 'complex': cplx, 'log10_eps': round(math.log10(eps), 2), 'second': 'base' if i % 2 else 'perturbed'})
+        ctx.case('near-pair', a, b, nontrivial=True)
+        ctx.workload('corner')
+        ctx.hit('regime/near-pair')
+        with ctx.guard('regimes/near-pair'):
+            U.get_trace_distance(a, b)
+            U.get_trace_distance(b, a)
+            U.get_fidelity(a, b)
+            U.get_relative_entropy(a, b)
+            U.get_relative_entropy(b, a)
+            U.get_von_neumann_entropy(a)
+            U.get_Renyi_entropy(a, RENYI_ALPHAS[i % 8])
+            U.get_purity(a)
+            if i % 2 == 0:
+                at, bt = torch.tensor(a), torch.tensor(b)
+                U.get_fidelity(at, bt)
+                U.get_relative_entropy(at, bt)
+                U.get_von_neumann_entropy(torch.stack([at, bt]))
+                U.get_purity(at.to(torch.complex128))  # (a real-dtype torch tensor raises in get_purity: `.imag` of a real tensor; purity is outside the C12 statement, not driven)
+        # ---- (a) dense matrices equal to an exact object only up to rounding noise (no symmetry preserved)
+        amp = float(10.0**(-rng.uniform(13, 16)))
+        kind, rho = input_states(rng, numqi, d, cplx)[int(rng.integers(6))]
+        rho_n = np.asarray(rho, dtype=np.complex128) + _round_noise(rng, (d, d), amp)
+        sig_n = rc.rand_state(rng, d, None, cplx) + _round_noise(rng, (d, d), amp)
+        ctx.set_case({'regime': 'rounding-noise-state', 'kind': kind, 'd': d, 'log10_amp': round(math.log10(amp), 2)})
+        ctx.case('rounding-noise-state', rho_n, sig_n, nontrivial=True)
+        with ctx.guard('regimes/rounding-noise'):
+            U.get_fidelity(rho_n, sig_n)
+            U.get_trace_distance(rho_n, sig_n)
+            U.get_relative_entropy(rho_n, sig_n)
+            U.get_von_neumann_entropy(rho_n)
+            U.get_purity(rho_n)
+        gh.clear()
+        din, dout = int(rng.integers(1, 6)), int(rng.integers(1, 6))
+        fam = ('identity', 'unitary', 'random', 'isometry')[i % 4]
+        if fam == 'identity':
+            dout = din
+            k0 = np.eye(din, dtype=np.complex128).reshape(1, din, din)
+        elif fam == 'unitary':
+            dout = din
+            k0 = rc.rand_isometry(rng, din, din, cplx).reshape(1, din, din)
+        elif fam == 'isometry':
+            dout = max(din, dout)
+            k0 = rc.rand_isometry(rng, dout, din, cplx).reshape(1, dout, din)
+        else:
+            k0 = rc.rand_kraus(rng, int(rng.integers(-(-din // dout), din * dout + 1)), din, dout, cplx)
+        nn = din * dout
+        choi_n = rc.choi_from_kraus(k0) + _round_noise(rng, (nn, nn), amp)
+        sup_n = rc.super_from_kraus(k0) + _round_noise(rng, (dout * dout, din * din), amp)
+        rho_in = rc.rand_state(rng, din, None, cplx)
+        ctx.set_case({'regime': 'rounding-noise-channel', 'family': fam, 'din': din, 'dout': dout, 'log10_amp': round(math.log10(amp), 2)})
+        ctx.case('rounding-noise-channel', choi_n, nontrivial=nn > 1)
+        with ctx.guard('regimes/rounding-noise'):
+            ref = rc.apply_kraus(k0, rho_in)
+            kc = Ch.choi_op_to_kraus_op(choi_n, din)
+            ks = Ch.super_op_to_kraus_op(sup_n)
+            outs = {'apply_choi_op': Ch.apply_choi_op(choi_n, rho_in), 'apply_super_op': Ch.apply_super_op(sup_n, rho_in),
+                    'apply_super_op(choi_op_to_super_op)': Ch.apply_super_op(Ch.choi_op_to_super_op(choi_n, din), rho_in),
+                    'apply_choi_op(super_op_to_choi_op)': Ch.apply_choi_op(Ch.super_op_to_choi_op(sup_n), rho_in)}
+            if isinstance(kc, np.ndarray) and kc.ndim == 3 and kc.shape[1:] == (dout, din):
+                outs['apply_kraus_op(kraus<-choi)'] = Ch.apply_kraus_op(kc, rho_in)
+            if isinstance(ks, np.ndarray) and ks.ndim == 3 and ks.shape[1:] == (dout, din):
+                outs['apply_kraus_op(kraus<-super)'] = Ch.apply_kraus_op(ks, rho_in)
+            for nm, o in outs.items():
+                ctx.close(o, ref, 1e-8, 'equiv/rounding-noise/' + nm, f'{nm} on a representation that carries rounding noise of 1e-13..1e-16 differs from the '
+                          'reference output state of the exact channel', {'family': fam, 'din': din, 'dout': dout, 'noise_amplitude': amp, 'rho': rho_in, 'kraus': k0},
+                          point='equiv/all-representations')
+            Ch.choi_op_to_bloch_map(choi_n.reshape(din, dout, din, dout))
+        # ---- (a) nearly (not exactly) rank-deficient Choi operator: a dominant channel + weight q of a high-rank one
+        if i % 2 == 0:
+            q = float(10.0**(-rng.uniform(3, 9)))
+            k1 = rc.rand_kraus(rng, int(rng.integers(-(-din // dout), din * dout + 1)), din, dout, cplx)
+            kmix = np.concatenate([np.sqrt(1 - q) * k0.astype(np.complex128), np.sqrt(q) * k1.astype(np.complex128)])
+            with ctx.guard('regimes/nearly-rank-deficient'):
+                drive_channel(ctx, numqi, gh, kmix, f'nearly-rank-deficient({fam}+q*random)', True, n_pairs=2, wl='corner')
+                choi = rc.choi_from_kraus(kmix)
+                sup = rc.super_from_kraus(kmix)
+                ctx.set_case({'regime': 'zero_eps-option', 'din': din, 'dout': dout, 'log10_q': round(math.log10(q), 2)})
+                for ze in (1e-6, 1e-13):
+                    Ch.choi_op_to_kraus_op(choi, din, zero_eps=ze)
+                    Ch.choi_op_to_kraus_op(choi, din, ze)
+                    Ch.super_op_to_kraus_op(sup, zero_eps=ze)
+                    Ch.super_op_to_kraus_op(sup, ze)
+        # ---- (b)/(d) callable entry points, Kraus rank above dim_in^2 for dim_out > dim_in
+        if i % 2 == 1:
+            hin, hout, hterm = HF_CONFIGS[(i // 2) % len(HF_CONFIGS)]
+            kh = rc.rand_kraus(rng, hterm, hin, hout, cplx)
+            ctx.set_case({'regime': 'hf_channel', 'din': hin, 'dout': hout, 'terms': hterm, 'complex': cplx})
+            ctx.case('hf-channel', kh, nontrivial=hin * hout > 1)
+            with ctx.guard('regimes/hf_channel'):
+                kb = Ch.hf_channel_to_kraus_op(lambda r: Ch.apply_kraus_op(kh, r), hin)
+                c4 = Ch.hf_channel_to_choi_op(lambda r: rc.apply_kraus(kh, r), hin)
+                if isinstance(kb, np.ndarray) and kb.ndim == 3 and kb.shape[1:] == (hout, hin) and isinstance(c4, np.ndarray) and c4.shape == (hin, hout, hin, hout):
+                    r0 = rc.rand_state(rng, hin, None, cplx)
+                    ref = rc.apply_kraus(kh, r0)
+                    ctx.close(Ch.apply_kraus_op(kb, r0), ref, 1e-8, 'equiv/hf_channel_to_kraus_op', 'Kraus operators from hf_channel_to_kraus_op give a different '
+                              'output state than the channel they were extracted from', {'din': hin, 'dout': hout, 'terms': hterm, 'kraus': kh}, point='equiv/all-representations')
+                    ctx.close(Ch.apply_choi_op(c4.reshape(hin * hout, hin * hout), r0), ref, 1e-8, 'equiv/hf_channel_to_choi_op', 'Choi operator from hf_channel_to_choi_op '
+                              'gives a different output state than the channel it was extracted from', {'din': hin, 'dout': hout, 'terms': hterm, 'kraus': kh},
+                              point='equiv/all-representations')
+                if i % 8 == 1:
+                    Ch.hf_channel_to_kraus_op(lambda r: U.partial_trace(r, (2, 2), [int(i // 8) % 2]), 4)
+                    Ch.hf_channel_to_choi_op(lambda r: U.partial_trace(r, (2, 3), [0]), 6)
+        # ---- (b) one degenerate item inside a batch must not leak into the other items
+        shape = [(1,), (4,), (2, 3)][i % 3]
+        nb = int(np.prod(shape))
+        items = [rc.rand_state(rng, d, None, cplx) for _ in range(nb)]
+        pos = int(rng.integers(nb))
+        dk = ('pure', 'maximally-mixed', 'rank-deficient', 'basis')[(i // 3) % 4]
+        items[pos] = {'pure': lambda: rc.rand_state(rng, d, 1, cplx), 'maximally-mixed': lambda: np.eye(d, dtype=np.complex128) / d,
+                      'rank-deficient': lambda: rc.rand_state(rng, d, max(1, d - 1), cplx),
+                      'basis': lambda: np.diag(np.eye(d)[int(rng.integers(d))]).astype(np.complex128)}[dk]()
+        batch = np.stack([np.asarray(x, dtype=np.complex128) for x in items]).reshape(shape + (d, d))
+        if i % 5 == 4:
+            batch = batch.astype(np.complex64)
+        single = batch.dtype == np.complex64
+        ctx.set_case({'regime': 'batch-one-degenerate-item', 'd': d, 'shape': list(shape), 'degenerate': dk, 'position': pos, 'dtype': str(batch.dtype)})
+        ctx.case('batch-one-degenerate', batch, nontrivial=True)
+        with ctx.guard('regimes/batch'):
+            for backend in ('numpy', 'torch'):
+                xb = batch if backend == 'numpy' else torch.tensor(batch)
+                res = _np(U.get_von_neumann_entropy(xb))
+                if not (_numeric(res) and res.shape == shape):
+                    continue  # reported by the contract
+                per = np.array([float(_np(U.get_von_neumann_entropy(xb.reshape((nb, d, d))[t]))) for t in range(nb)]).reshape(shape)
+                ctx.close(res, per, 1e-5 if single else 1e-12, f'entropy-batch/{backend}/differs-from-per-sample',
+                          'get_von_neumann_entropy of a batch with one degenerate item differs from the per-sample evaluation',
+                          {'d': d, 'shape': list(shape), 'degenerate': dk, 'position': pos, 'batched': res, 'per_sample': per}, point='entropy-batch/one-degenerate-item')
+            gb = batch.astype(np.complex128).copy().reshape(nb, d, d)
+            gb[pos] = 0 if i % 2 else np.eye(d)
+            gb = gb.reshape(shape + (d, d)) + (0 if i % 4 < 2 else _rand_herm_dir(rng, d, True) * 1j)  # non-hermitian items on odd rounds
+            for xb in (gb, torch.tensor(gb)):
+                vec = GM.matrix_to_gellmann_basis(xb)
+                if tuple(np.shape(_np(vec))) == shape + (d * d,):
+                    back = GM.gellmann_basis_to_matrix(vec)
+                    ctx.close(_np(back), gb, 1e-12, 'gellmann/basis_to_matrix(matrix_to_basis)-not-identity',
+                              'gellmann_basis_to_matrix(matrix_to_gellmann_basis(A)) != A for a batch with one zero / identity item', {'d': d, 'shape': list(shape)})
+            GM.dm_to_gellmann_basis(items[0], with_rho0=True)
+            GM.dm_to_gellmann_basis(items[pos], True)
+    ctx.sample({'regimes': 'near pairs eps=1e-3..1e-12 (around I/d, a full-rank state, a skewed spectrum); rounding noise 1e-13..1e-16 on states / Choi / super-operator; '
+                           'nearly rank-deficient Choi q=1e-3..1e-9; zero_eps in (1e-6, 1e-13); hf_channel_* with Kraus rank above dim_in^2; batches with one degenerate item'})
+
+
+def torch_modes(ctx, numqi, kop, rho, pair, i):
+    """the same VALUE whatever the autograd mode: plain tensors, tensors that require grad (the Pade logm route of the entropies is
+    only taken then), one of two arguments requiring grad, evaluation under torch.no_grad(), lazily conjugated tensors."""
+    import torch
+    Ch, U = numqi.channel, numqi.utils
+    kop = np.asarray(kop, dtype=np.complex128)
+    _, dout, din = kop.shape
+    kind, a, b = pair
+    a, b = rq.as_dm(a), rq.as_dm(b)
+    desc = {'family': 'torch-modes', 'din': din, 'dout': dout, 'terms': int(kop.shape[0]), 'pair': kind}
+    ctx.set_case(desc)
+    ctx.workload('corner')
+    ref_out = rc.apply_kraus(kop, rho)
+    choi, sup = rc.choi_from_kraus(kop), rc.super_from_kraus(kop)
+
+    def T(x, grad=False, lazy_conj=False):
+        t = torch.tensor(np.asarray(x, dtype=np.complex128).conj() if lazy_conj else np.asarray(x, dtype=np.complex128))
+        if lazy_conj:
+            t = t.conj()  # conj bit set, same value
+        return t.requires_grad_(True) if grad else t
+
+    def same(name, values, ref, tol):
+        """values: {mode: result}"""
+        for mode, v in values.items():
+            g = _np(v)
+            ok = _numeric(g) and g.shape == np.shape(ref) and bool(np.all(np.isfinite(g))) and float(np.abs(g - ref).max(initial=0)) <= tol
+            ctx.check(ok, f'torch-modes/{name}/{mode}', f'{name}: torch evaluation in mode "{mode}" differs from the reference value '
+                      '(the value must not depend on the autograd mode)', lambda: {**desc, 'mode': mode, 'got': g, 'expected': np.asarray(ref)}, point='torch-modes/same-value')
+
+    with ctx.guard('torch-modes'):
+        vals = {}
+        for mode, gk, gr, lazy in (('plain', False, False, False), ('op-requires-grad', True, False, False), ('rho-requires-grad', False, True, False),
+                                   ('both-require-grad', True, True, False), ('lazy-conj', False, False, True)):
+            vals[mode] = Ch.apply_kraus_op(T(kop, gk, lazy), T(rho, gr, lazy))
+        with torch.no_grad():
+            vals['no_grad(both-require-grad)'] = Ch.apply_kraus_op(T(kop, True), T(rho, True))
+        same('apply_kraus_op', vals, ref_out, TOL)
+        vals = {'op-requires-grad': Ch.apply_choi_op(T(choi, True), T(rho)), 'rho-requires-grad': Ch.apply_choi_op(T(choi), T(rho, True)),
+                'lazy-conj': Ch.apply_choi_op(T(choi, lazy_conj=True), T(rho, lazy_conj=True))}
+        with torch.no_grad():
+            vals['no_grad(both-require-grad)'] = Ch.apply_choi_op(T(choi, True), T(rho, True))
+        same('apply_choi_op', vals, ref_out, TOL)
+        vals = {'op-requires-grad': Ch.apply_super_op(T(sup, True), T(rho)), 'rho-requires-grad': Ch.apply_super_op(T(sup), T(rho, True)),
+                'lazy-conj': Ch.apply_super_op(T(sup, lazy_conj=True), T(rho, lazy_conj=True))}
+        same('apply_super_op', vals, ref_out, TOL)
+        vals = {'requires-grad': Ch.kraus_op_to_choi_op(T(kop, True)), 'lazy-conj': Ch.kraus_op_to_choi_op(T(kop, lazy_conj=True))}
+        with torch.no_grad():
+            vals['no_grad(requires-grad)'] = Ch.kraus_op_to_choi_op(T(kop, True))
+        same('kraus_op_to_choi_op', vals, choi, TOL)
+        # functionals (the contracts judge every call against the reference; here: all modes give one value)
+        lam = float(min(rq.spectrum(a).min(), rq.spectrum(b).min()))
+        vals = {'plain': U.get_fidelity(T(a), T(b)), 'first-requires-grad': U.get_fidelity(T(a, True), T(b)), 'second-requires-grad': U.get_fidelity(T(a), T(b, True)),
+                'both-require-grad': U.get_fidelity(T(a, True), T(b, True)), 'lazy-conj': U.get_fidelity(T(a, lazy_conj=True), T(b, lazy_conj=True))}
+        with torch.no_grad():
+            vals['no_grad(both-require-grad)'] = U.get_fidelity(T(a, True), T(b, True))
+        same('get_fidelity', vals, np.asarray(rq.fidelity(a, b)), 1e-6 if lam < 1e-6 else 1e-9)
+        hs = np.array([rq.entropy(a), rq.entropy(b)])
+        ab = np.stack([a, b])
+        vals = {'plain': U.get_von_neumann_entropy(T(ab)), 'requires-grad(eigen)': U.get_von_neumann_entropy(T(ab, True)),
+                'requires-grad(pade)': U.get_von_neumann_entropy(T(ab, True), _torch_logm=('pade', 6, 8)),
+                'plain(pade-requested)': U.get_von_neumann_entropy(T(ab), ('pade', 6, 8)), 'lazy-conj': U.get_von_neumann_entropy(T(ab, lazy_conj=True))}
+        with torch.no_grad():
+            vals['no_grad(requires-grad, pade)'] = U.get_von_neumann_entropy(T(ab, True), _torch_logm=('pade', 6, 8))
+        if lam >= 1e-6:
+            same('get_von_neumann_entropy', vals, hs, 1e-8)
+        else:
+            ctx.inconclusive('torch-modes/entropy-pade-on-rank-deficient-state(not Lipschitz)')
+        U.get_Renyi_entropy(T(a, True), RENYI_ALPHAS[i % 8])
+        U.get_purity(T(a, True))
+        if float(rq.spectrum(b).min()) >= 1e-6:
+            sref = np.asarray(rq.relative_entropy(a, b))
+            given = -rq.entropy(a)
+            vals = {'plain': U.get_relative_entropy(T(a), T(b)), 'both-require-grad(pade)': U.get_relative_entropy(T(a, True), T(b, True)),
+                    'second-requires-grad(pade)': U.get_relative_entropy(T(a), T(b, True)), 'first-requires-grad(pade)': U.get_relative_entropy(T(a, True), T(b)),
+                    'both-require-grad(eigen)': U.get_relative_entropy(T(a, True), T(b, True), _torch_logm='eigen'),
+                    'second-requires-grad(pade,6,8 positional, given tr_rho_log_rho)': U.get_relative_entropy(T(a), T(b, True), given, ('pade', 6, 8)),
+                    'given-tr_rho_log_rho-as-tensor': U.get_relative_entropy(T(a), T(b, True), torch.tensor(given, dtype=torch.float64)),
+                    'lazy-conj': U.get_relative_entropy(T(a, lazy_conj=True), T(b, lazy_conj=True))}
+            with torch.no_grad():
+                vals['no_grad(both-require-grad)'] = U.get_relative_entropy(T(a, True), T(b, True))
+            same('get_relative_entropy', vals, sref, 1e-8 * max(1.0, float(abs(sref))))
+        else:
+            ctx.inconclusive('torch-modes/relative-entropy-second-argument-not-full-rank')
+
+
 def run(ctx, shard):
     import numqi
     _seed_unseeded_generators(ctx)
@@ -1258,6 +1668,9 @@ def run(ctx, shard):
                     Ch.hf_channel_to_choi_op(lambda r: Ch.apply_super_op(sup, r), din)
                 drive_channel(ctx, numqi, gh, kop, f'rand_choi_op(rank={"full" if rank is None else "r"})', True, n_pairs=5)
 
+    elif name.startswith('regimes'):
+        run_regimes(ctx, numqi, gh, shard['n'])
+
     elif name == 'noise':
         fns = {'dephasing': Ch.hf_dephasing_kraus_op, 'depolarizing': Ch.hf_depolarizing_kraus_op, 'amplitude_damping': Ch.hf_amplitude_damping_kraus_op}
         for nm, fn in fns.items():
@@ -1302,6 +1715,15 @@ def run(ctx, shard):
         ctx.sample({'noise': 'amplitude_damping', 'rates_driven': [repr(r) for r in RATE_GRID[:8]], 'note': 'every grid rate for the three channels'})
 
     elif name.startswith('functionals'):
+        # consumers in other modules (closed forms built on get_relative_entropy): driven under the contracts
+        for d in (2, 3, 4, 5):
+            for alpha in (1 / d + (1 - 1 / d) * float(rng.random()), 1 / d + 1e-7, 1 - 1e-3):
+                ctx.set_case({'consumer': 'numqi.state.get_Werner_ree / get_Isotropic_ree', 'd': d, 'alpha': alpha})
+                ctx.case('ree-consumer', d, alpha)
+                ctx.workload('realistic')
+                with ctx.guard('functionals/consumer'):
+                    numqi.state.get_Werner_ree(d, alpha)
+                    numqi.state.get_Isotropic_ree(d, 1 / (d + 1) + (alpha - 1 / d) * (d / (d + 1)) / (1 - 1 / d) * 0.999)
         # the functionals on hostile state pairs; a random channel is registered so that the data-processing monitors run too
         for i in range(shard['n']):
             d = int(rng.integers(1, 6))
@@ -1328,6 +1750,8 @@ def run(ctx, shard):
                     U.get_von_neumann_entropy(a)
                     for alpha in RENYI_ALPHAS[(i % 4) * 2:(i % 4) * 2 + 2]:
                         U.get_Renyi_entropy(a, alpha)
+                    if i % 4 == 0:
+                        U.get_purity(a)
                     if i < 3 and kind == 'full/full':
                         ctx.sample({'functional-pair': kind, 'd': d, 'F': float(f), 'T': float(t), 'S': float(s), 'H(rho)': rq.entropy(a)})
             # batched entropy, shapes (k,), (k,l), (1,)
@@ -1384,6 +1808,7 @@ def run(ctx, shard):
                         U.get_relative_entropy(at, bt, _torch_logm='eigen')
                     U.get_von_neumann_entropy(torch.stack([at, bt]))
                     U.get_Renyi_entropy(at, RENYI_ALPHAS[i % 8])
+                torch_modes(ctx, numqi, kop, rc.rand_state(rng, din, None, True), state_pairs(rng, din, True)[(0, 4, 6, 1, 2)[i % 5]], i)
             gh.clear()
 
     elif name == 'realistic':
@@ -1406,6 +1831,74 @@ def run(ctx, shard):
                           'optimised Holevo quantity of a channel outside [0, log d_in]', {'channel': nm, 'capacity': cap})
                 ctx.sample({'realistic': 'ChannelCapacity1InfModel', 'channel': nm, 'holevo_lower_bound': cap})
                 drive_channel(ctx, numqi, gh, kop, 'realistic/' + nm, True, n_pairs=4, wl='realistic')
+
+        # object lifecycle of the consumer (the forward contract judges every call against the ghost channel of THAT instance)
+        import copy
+        import torch
+        for rep in range(3 if ctx.tier == 'quick' else 12):
+            d = int(rng.integers(2, 5))
+            ns = int(rng.integers(2, d + 2))  # (DiscreteProbability needs >= 2 outcomes)
+            douts = [int(rng.integers(1, 6)) for _ in range(3)]
+            ks = [rc.rand_kraus(rng, int(rng.integers(-(-d // do), d * do + 1)), d, do, bool(rng.random() < 0.7)) for do in douts]
+            if rep % 2 == 0:  # same shape as the first channel: nothing shape-keyed may survive set_channel_kraus_op
+                ks[2] = rc.rand_kraus(rng, ks[0].shape[0], d, ks[0].shape[1], True)
+                douts[2] = douts[0]
+            ctx.set_case({'realistic': 'ChannelCapacity1InfModel lifecycle', 'dim_in': d, 'num_state': ns, 'dim_out': douts, 'terms': [int(k.shape[0]) for k in ks]})
+            ctx.case('capacity-lifecycle', *ks)
+            ctx.workload('corner')
+
+            def randomise(model, scale=1.0):
+                with torch.no_grad():
+                    for q in model.parameters():
+                        q.copy_(torch.tensor(rng.normal(size=tuple(q.shape)) * scale, dtype=q.dtype))
+
+            def val(model):
+                return float(model().detach())
+
+            def lc(cond, key, what, w):
+                ctx.check(cond, 'capacity-model/lifecycle/' + key, what, {'dim_in': d, 'num_state': ns, **w}, point='capacity-model/lifecycle')
+
+            with ctx.guard('realistic/lifecycle'):
+                ma, mb = Ch.ChannelCapacity1InfModel(d, ns), Ch.ChannelCapacity1InfModel(d, ns)
+                ma.set_channel_kraus_op(ks[0])
+                mb.set_channel_kraus_op(ks[1])  # a second instance with another channel must not reach into the first
+                randomise(ma)
+                randomise(mb, 1e-7 if rep % 3 == 2 else 1.0)  # (tiny parameters: the manifolds normalise their argument)
+                va, vb = val(ma), val(mb)
+                lc(val(ma) == va, 'first-instance-changed-by-second', 'model A evaluates differently after model B (other channel) was evaluated', {'before': va})
+                # evaluation modes
+                with torch.no_grad():
+                    v_ng = float(ma())
+                for q in ma.parameters():
+                    q.requires_grad_(False)
+                v_fr = float(ma())
+                for q in ma.parameters():
+                    q.requires_grad_(True)
+                lc(abs(v_ng - va) <= 1e-12 and abs(v_fr - va) <= 1e-12, 'value-depends-on-autograd-mode',
+                   'forward() under torch.no_grad() / with frozen parameters differs from the recorded evaluation', {'recorded': va, 'no_grad': v_ng, 'frozen': v_fr})
+                # deepcopy, then new parameters in the copy
+                mc = copy.deepcopy(ma)
+                gh.model_kop[id(mc)] = (mc, np.array(ks[0], dtype=np.complex128))
+                lc(val(mc) == va, 'deepcopy-differs', 'a deepcopy evaluates differently from its original', {'original': va})
+                randomise(mc)
+                vc = val(mc)  # judged by the forward contract against the copy's OWN parameters
+                lc(val(ma) == va, 'original-changed-after-copy-used', 'the original evaluates differently after its deepcopy got new parameters', {'before': va})
+                # a new channel for the same instance (other dim_out / number of terms): everything cached must follow
+                ma.set_channel_kraus_op(ks[2])
+                v2 = val(ma)
+                lc(val(mc) == vc, 'copy-changed-by-set_channel-on-original', 'the deepcopy evaluates differently after the original was given a new channel', {'before': vc})
+                ma.set_channel_kraus_op(ks[0])
+                lc(abs(val(ma) - va) <= 1e-12, 'set_channel-not-restoring', 'after set_channel(K0), set_channel(K2), set_channel(K0) the value for K0 is not reproduced',
+                   {'first': va, 'other_channel': v2})
+                # load_state_dict into a fresh instance with the same channel
+                md = Ch.ChannelCapacity1InfModel(d, ns)
+                md.set_channel_kraus_op(ks[0])
+                md.load_state_dict(mc.state_dict())
+                lc(abs(val(md) - vc) <= 1e-12, 'load_state_dict-differs', 'a fresh instance loaded with the state_dict of another one evaluates differently', {'source': vc})
+                # in-place parameter update, then call again
+                randomise(ma, 10.0)
+                val(ma)
+                gh.model_kop.clear()
 
     elif name == 'repo-tests':
         from vmon import core
